@@ -42,6 +42,10 @@ var c15Single = []c15Op{
 	// sort returns a copy: changing the copy must not change the array
 	{"sort().push(5)", func(a func() Expr) Expr { return CallE(Mem(CallE(Mem(a(), "sort")), "push"), N("5")) }},
 	{"sort()[0]=6", func(a func() Expr) Expr { return Asg("=", Idx(CallE(Mem(a(), "sort")), N("0")), N("6")) }},
+	// a null stored past the end is an ordinary element wherever it moves to; contains goes by ==, whatever the kinds
+	{"[len+1]=null", func(a func() Expr) Expr { return Asg("=", Idx(a(), Bin("+", CallE(Mem(a(), "length")), N("1"))), &NullLit{}) }},
+	{"[1]=5", func(a func() Expr) Expr { return Asg("=", Idx(a(), N("1")), N("5")) }},
+	{"contains('1')", c15Call("contains", S("1"))},
 	// pushing the null read from beyond the end: the new element is an ordinary null, a later store into it stays in this array
 	// a store far past the end pads with nulls; each padded slot is an element of its own
 	{"[len+2]=4", func(a func() Expr) Expr { return Asg("=", Idx(a(), Bin("+", CallE(Mem(a(), "length")), N("2"))), N("4")) }},
@@ -281,7 +285,7 @@ func c15Units(t fw.Tier) (units [][3]int) {
 func init() {
 	fw.Register(addTok(tokFramesC15, &fw.Prop{
 		ID: "C15",
-		Rule: "all sequences of exactly D operations (every shorter history is a prefix of one of them, and a run prints result, contents and length after each operation) over 24 operations on one array " +
+		Rule: "all sequences of exactly D operations (every shorter history is a prefix of one of them, and a run prints result, contents and length after each operation) over 27 operations on one array " +
 			"(push of a number / string / array / unset value, pop, popfirst, reads and writes at 0, -1 and length, length, contains of a number / string / unset value, sort, a push / index store into the result of sort, a push of the null read from beyond the end, a store two past the end and a store into the second-last slot), with the array held by a variable, inside the input document ($.arr, also compared through -o), inside an object (o.k), inside another array (m[0]) as a literal rebuilt for every element of the input, as $.t of every record of a document with several empty arrays and as $.arr of every value of a stream and in a variable that starts with strings and numbers mixed (shorter histories); 12 programs that keep arrays of earlier documents / records / stream values while later ones are read; 44 fixed arrays of 5-40 elements with equal sort keys but distinguishable values (stability at every length);  " +
 			"deeper histories over the 11 length-changing and indexing operations; all sequences over 11 operations on an array with unset elements (observed through booleans and numbers only); and all sequences over 20 operations on two arrays including calls nested in each other's arguments and aliasing; histories are not merged (slice capacity is hidden state); oracle: ideal list in the reference interpreter; " +
 			"a state is a distinct model list reached; non-trivial = same",
